@@ -2,7 +2,7 @@ import RedunModel.Proto
 import RedunModel.Model.Monitor
 open RedunModel RedunModel.Monitor
 
-/- request: `run <docker|batch|k8s|gcp|glue> (<job id>*) (<S | A | (M k) | (U k)>*)`   (ints as i<n>)
+/- request: `run <docker|batch|k8s|gcp|glue> <arrayer max_array_size, i0 = unbounded> (<job id>*) (<S | A | (M k) | (U k)>*)`   (ints as i<n>)
    reply:   per schedule letter `(<label executed> <state after>)` or `blocked`, separated by ` | `,
             then ` | (final <state>)`.
    state ::= (flag T|F) (pend (ids)) (queue (ids)) (arr T|F) (rep (ids)) (crash n) (hit T|F) (S <lbl>|-)
@@ -23,7 +23,7 @@ def showState (V : Variant) (s : State) : String :=
     | .unstarted => "new" | .dead => "dead" | _ => lblStr (labelM V m))
   let subs := " ".intercalate (s.subs.map fun u => match u.ph with
     | .unstarted => "new" | .dead => "dead" | _ => lblStr (labelU V u))
-  s!"(flag {tf s.flag}) (pend {ids s.pending}) (queue {ids s.queue}) (arr {tf s.arrAlive}) (rep {ids s.reported}) (crash {atomOfInt (Int.ofNat s.crashes)}) (hit {tf s.hit}) (S {lblStr (labelS V s)}) (mons {mons}) (subs {subs}) (lost {ids (lost s)})"
+  s!"(flag {tf s.flag}) (pend {ids s.pending}) (queue {ids s.queue}) (arr {tf s.arrAlive}) (rep {ids s.reported}) (crash {atomOfInt (Int.ofNat s.crashes)}) (num {atomOfInt (Int.ofNat s.queue.length)}) (hit {tf s.hit}) (S {lblStr (labelS V s)}) (mons {mons}) (subs {subs}) (lost {ids (lost s)})"
 
 def parseEv : Sexp → Option Ev
   | .atom "S" => some .S
@@ -47,8 +47,8 @@ def runTrace (V : Variant) : State → List Ev → List String → List String
 
 def handle (_ : Unit) (line : String) : Unit × String :=
   match Sexp.parseLine line with
-  | some [.atom "run", .atom v, .list jobs, .list sched] =>
-    match variantOf v, jobs.mapM (fun x => match x with | .atom a => natOfAtom a | _ => none), sched.mapM parseEv with
+  | some [.atom "run", .atom v, .atom amax, .list jobs, .list sched] =>
+    match (variantOf v).bind (fun V => (natOfAtom amax).map (fun k => { V with arrMax := k })), jobs.mapM (fun x => match x with | .atom a => natOfAtom a | _ => none), sched.mapM parseEv with
     | some V, some jobs, some sched => ((), " | ".intercalate (runTrace V (init jobs) sched []))
     | _, _, _ => ((), "bad-value")
   | _ => ((), "bad-op")
